@@ -758,22 +758,29 @@ impl<C: CellType> OptRebuild<'_, C> {
                                 None,
                             ];
                         } else if inc.variables().all(|x| constant.contains(&x)) {
-                            if let Some(m) = mul
-                                .wrapping_pow(c)
-                                .wrapping_mul(mul)
-                                .wrapping_add(C::NEG_ONE)
-                                .wrapping_div(mul.wrapping_add(C::NEG_ONE))
-                            {
-                                return [
-                                    Some(
-                                        Expr::val(mul.wrapping_pow(c))
-                                            .mul(Expr::var(var))
-                                            .add(Expr::val(m).mul(inc)),
-                                    ),
-                                    None,
-                                    None,
-                                ];
+                            // After `c` rounds of `x = mul * x + inc` we have
+                            // `mul^c * x + (mul^0 + .. + mul^(c-1)) * inc`. The sum is
+                            // built bit by bit from the top of `c`; dividing `mul^c - 1`
+                            // by `mul - 1` is not unique modulo a power of two.
+                            let mut sum = C::ZERO;
+                            let mut pow = C::ONE;
+                            for bit in (0..C::BITS).rev() {
+                                sum = sum.wrapping_mul(pow.wrapping_add(C::ONE));
+                                pow = pow.wrapping_mul(pow);
+                                if c.wrapping_shr(bit).is_odd() {
+                                    sum = sum.wrapping_add(pow);
+                                    pow = pow.wrapping_mul(mul);
+                                }
                             }
+                            return [
+                                Some(
+                                    Expr::val(pow)
+                                        .mul(Expr::var(var))
+                                        .add(Expr::val(sum).mul(inc)),
+                                ),
+                                None,
+                                None,
+                            ];
                         }
                     }
                 }
